@@ -20,7 +20,8 @@ MANIFEST = {
              'reader calls the state is a bijection holding the initial labels followed by the accepted values, outcome by outcome; the guard go_dom only '
              'excludes an extend carrying a float alias of a held position on a still map-less index, a consequence of finding C02-auto-float-key); C02_hier_refines / C02_hier_bijection (IndexHierarchy.from_labels: dict-tree walk with the shared '
              'observed_last list, levels with relative offsets, leaf_loc_to_iloc: accepted iff one depth >= 2, distinct and tree-ordered; then the '
-             'table in the given order with exact lookups); C02_derive_select/drop/roll (label computations of the derivations keep an index an index). '
+             'table in the given order with exact lookups); C02_tree_order_is_contiguity; C02_level_drop_single_group (level_drop(1) is exact for one outermost '
+             'group; two or more: Refuted/C02_level_drop_offsets.v); C02_derive_select/drop/roll (label computations of the derivations keep an index an index). '
              'Refuted/C02_*.v: 2 concrete witnesses (one file per unrepaired finding) where the faithful model (= the unchanged code) leaves the property (known/C02.jsonl). '
              'Gen/Gen_c02.v: error classes and statement-order facts re-read from the AST of /repo on every run and used by M. '
              'API-level correspondence of M and of S with the implementation: every public construction route x label kinds, exhaustive small label '
@@ -28,18 +29,27 @@ MANIFEST = {
              'level_drop), list and slice keys, datetime-typed indices and their GO forms, hierarchical tables incl. non-tree orders and duplicates, '
              'IndexHierarchyGO.append inside the tree-order class, and an oracle sweep of automap.AutoMap/FrozenAutoMap.'),
     'note': ('trusted: Coq kernel; hand-written models coq/SF/IndexBij.v, IxTree.v (tied to /repo by the correspondence cases of each run and by the '
-             'regenerated constants); AutoMap/FrozenAutoMap modelled as an insertion-ordered map that raises on a duplicate (oracle, swept each run); '
-             'NumPy indexing of the cached positions array modelled by positions_getitem; label canonicalisation under Python equality '
-             '(True == 1 == 1.0) done inside Coq by SF.IndexBijVal.canon; conversion of date strings to datetime64 done by NumPy in the harness. '
-             'Partial: derivations and the from_product/from_tree/from_index_items/level_add routes, datetime indices, IndexHierarchyGO.append are '
-             'covered by correspondence with S only (their results are built through the modelled constructors); IndexHierarchyGO.append outside the '
-             'tree surgery itself belongs to C05/C09 (judged here by S only). NaN labels, from_pandas and tuple components of hierarchical labels '
-             'are outside. The dtype resolution of the labels ARRAY of a grow-only index (_update_array_cache: int64 + float64 -> float64) is not '
-             'part of M: Python ints beyond 2**53 meeting floats through append/extend are only observed (finding C02-go-bigint-float-coercion, no refuted witness).'),
+             'regenerated constants of Gen/Gen_c02.v); the specification side (SF/IndexBijSpec*.v, IxTreeSpec*.v) has no generated dependency and is still '
+             'evaluated when the model is broken; AutoMap/FrozenAutoMap modelled as an insertion-ordered map that raises on a duplicate (oracle, swept each run); '
+             'NumPy indexing of the cached positions array modelled by positions_getitem; label canonicalisation under Python equality (True == 1 == 1.0) done '
+             'inside Coq by canon; date strings converted by NumPy in the harness. '
+             'Covered by correspondence with S only (results are built through the modelled constructors; no separate M): derivations (iloc/loc/getitem by '
+             'slice, list, array, mask, ILoc; head/tail/sample/fillna; drop by list, mask, slice; roll, relabel, sort, astype incl. datetime64, set operations '
+             'with several operands, copy/deepcopy/pickle/rename) from mapped AND auto-integer sources, from_date_range / from_year_month_range / from_year_range, '
+             'typed-index conversions, Index(IndexHierarchy / Series / Frame), static indices taken from grow-only ones before further growth, hierarchical '
+             'from_product / from_tree / from_index_items / level_add / from_labels(reorder_for_hierarchy, continuation_token, index_constructors) / '
+             'from_labels_delimited / from_names, hierarchical selection (getitem, loc by labels, HLoc, label slices, Frame column selection and drop), sort, '
+             'rehierarch, relabel, astype, level_drop(+-), set operations, IndexHierarchyGO.append/extend histories (incl. zero-length start, cache realised or '
+             'not, then derived through the constructor routes); python-side view consistency (iter_label, values_at_depth, label_widths_at_depth, unique, shape). '
+             'NOT covered: NaN labels, from_pandas/to_pandas, loc_is_iloc=True passed by the caller, datetime keys of another unit and datetime label slices '
+             '(LocMap datetime branches), partial_selection / offset arguments of the private _loc_to_iloc, searchsorted, isin/equals, binary/unary operators on '
+             'labels, via_str/via_dt, to_frame/to_series, display/HTML; the dtype resolution of the labels ARRAY of a grow-only index is not part of M '
+             '(finding C02-go-bigint-float-coercion is observed only); level_drop with a negative count that reaches depth 1 de-duplicates by design and is only '
+             'checked for self-consistency.'),
     'technique': 'refinement proofs M = S (flat, grow-only histories, hierarchical construction) + differential correspondence + regenerated constants',
 }
 PROPERTY_FILES = ['Properties/C02.v']
-REFUTED_FILES = ['Refuted/C02_float_key.v', 'Refuted/C02_dtype_map.v']
+REFUTED_FILES = ['Refuted/C02_float_key.v', 'Refuted/C02_dtype_map.v', 'Refuted/C02_level_drop_offsets.v']
 MODEL_FILES = ['SF/IndexBijSpec.v', 'SF/IndexBijSpecVal.v', 'SF/IxTreeSpec.v', 'SF/IxTreeSpecVal.v',      # specification side: no generated dependency
                'Gen/Gen_c02.v', 'SF/IndexBij.v', 'SF/IndexBijVal.v', 'SF/IxTree.v', 'SF/IxTreeVal.v']
 IMPORTS = 'Require Import SF.Prelude SF.Dtype SF.Value SF.PySlice SF.IndexBij SF.IndexBijVal SF.IxTree SF.IxTreeVal.'
@@ -401,7 +411,7 @@ def construct_random_cases(ctx):
     R = routes()
     names = sorted(R)
     kinds = ['int', 'str', 'bool', 'float', 'tuple', 'date', 'mixed', 'npint']
-    for _ in range(ctx.n(120, 3000)):
+    for _ in range(ctx.n(90, 3000)):
         kind = ctx.rng.choice(kinds)
         n = ctx.rng.choice([0, 1, 2, 3, 4, 5, 6, 8, 12])
         dup = ctx.rng.random() < 0.3
@@ -944,7 +954,7 @@ def auto_derive_cases(ctx):
     R = auto_routes()
     quick = ctx.tier == 'quick'
     names = ['Series(values).index', 'FrameGO(array).columns', 'IndexAutoFactory'] if quick else sorted(R)
-    sizes = [0, 1, 3, 6] if quick else list(range(0, 8))
+    sizes = [0, 3, 6] if quick else list(range(0, 8))
     for name in names:
         for n in sizes:
             labels = list(range(n))
@@ -982,6 +992,141 @@ def auto_derive_cases(ctx):
                 yield emit(dname, fn, expect, {})
 
 
+def more_flat_cases(ctx):
+    '''Routes of index.py / index_base.py that derive or construct a flat index and were not reached by the other strata
+    (coverage-guided): __getitem__, head/tail, sample, fillna, label slices / masks / ILoc keys, drop by mask / slice,
+    multi-operand set operations, astype to datetime64, Index(IndexHierarchy / Series / Frame), typed-array conversion.'''
+    import static_frame as sf
+    for _ in range(ctx.n(18, 500)):
+        kind = ctx.rng.choice(['int', 'str', 'mixed', 'float', 'str', 'auto'])
+        n = ctx.rng.choice([1, 2, 3, 4, 6])
+        if kind == 'auto':
+            labels = list(range(n))
+            mk = lambda: sf.Series(tuple(range(10, 10 + n))).index
+        else:
+            labels = draw_labels(ctx.rng, kind, n, False)
+            n = len(labels)
+            cls = ctx.rng.choice([sf.Index, sf.IndexGO])
+            mk = lambda: cls(labels)
+        L = vl(labels)
+        probes = list(labels)[:6] + ([-1, n] if kind == 'auto' else ['zz', -3])
+        ex = {'source': 'auto' if kind == 'auto' else 'mapped'}
+
+        def emit(name, fn, expect, **extra):
+            return derived_case(ctx, 'more:' + name, labels, lambda: fn(mk()), expect, probes, dict(ex, **extra))
+        k = slice(ctx.rng.choice([None, 0, 1, -2]), ctx.rng.choice([None, n, n - 1, -1]), ctx.rng.choice([None, 1, 2, -1]))
+        yield emit('ix[slice]', lambda s: s[k], f'(vS_iloc_slice {L} {lit.slice_(k)})', key=repr(k))
+        ps = [ctx.rng.randrange(-n, n) for _ in range(ctx.rng.choice([1, 2, 3]))]
+        yield emit('ix[list]', lambda s: s[ps], f'(vS_iloc_list {L} {lit.lst([lit.z(p) for p in ps])})', key=repr(ps))
+        c = ctx.rng.choice([0, 1, 2, n, n + 3])
+        yield emit('head', lambda s: s.head(c), f'(vS_iloc_slice {L} {lit.slice_(slice(None, c))})', count=c)
+        yield emit('tail', lambda s: s.tail(c), f'(vS_iloc_slice {L} {lit.slice_(slice(-c, None))})' if c else f'(Ok {L})', count=c)
+        if kind != 'mixed':
+            yield emit('fillna', lambda s: s.fillna(labels[0]), f'(Ok {L})')
+        mask = [ctx.rng.random() < 0.5 for _ in range(n)]
+        M = lit.lst([lit.b(x) for x in mask])
+        yield emit('loc[mask]', lambda s: s.loc[np.array(mask, dtype=bool)], f'(vS_iloc_mask {L} {M})', key=repr(mask))
+        yield emit('drop.iloc[mask]', lambda s: s.drop.iloc[np.array(mask, dtype=bool)], f'(vS_drop_iloc {L} {lit.lst([lit.z(i) for i, m in enumerate(mask) if m])})', key=repr(mask))
+        yield emit('drop.loc[mask]', lambda s: s.drop.loc[np.array(mask, dtype=bool)], f'(vS_drop_iloc {L} {lit.lst([lit.z(i) for i, m in enumerate(mask) if m])})', key=repr(mask))
+        sl = slice(ctx.rng.choice([None, 0, 1]), ctx.rng.choice([None, n - 1, n]), ctx.rng.choice([None, 2]))
+        yield emit('drop.iloc[slice]', lambda s: s.drop.iloc[sl], f'(vS_drop_iloc {L} {lit.lst([lit.z(i) for i in range(n)[sl]])})', key=repr(sl))
+        yield emit('loc[ILoc[list]]', lambda s: s.loc[sf.ILoc[ps]], f'(vS_iloc_list {L} {lit.lst([lit.z(p) for p in ps])})', key=repr(ps))
+        if kind != 'auto':
+            a = None if ctx.rng.random() < 0.3 else ctx.rng.choice(labels + ['zz'] if ctx.rng.random() < 0.15 else labels)
+            b = None if ctx.rng.random() < 0.3 else ctx.rng.choice(labels)
+            st = ctx.rng.choice([None, None, 2, -1])
+            if not (a is None and b is None and st is None):
+                yield emit('loc[slice]', lambda s: s.loc[a:b:st], f'(vS_loc_slice {L} {oval(a, a is None)} {oval(b, b is None)} {lit.oz(st)})', key=repr((a, b, st)))
+                if st is None:
+                    obs, ix = robs_lit(lambda: mk().drop.loc[a:b], probes)
+                    yield Case('api:derive', {'derivation': 'more:drop.loc[slice]', 'labels': repr(labels), 'key': repr((a, b)), 'observed': obs[:300]},
+                               s=f'chk_S_derived (match vS_loc_slice {L} {oval(a, a is None)} {oval(b, b is None)} None with Ok sel => Ok (filter (fun x => negb (memb val_eqb x sel)) (map canon {L})) | Err e => Err e end) {vl(probes)} {obs}',
+                               tags={'derivation': 'more:drop.loc[slice]'})
+        cnt = ctx.rng.choice([0, 1, n])
+        obs, ix = robs_lit(lambda: mk().sample(cnt, seed=ctx.rng.randrange(100)), probes)
+        ctx.count('derive:more:sample')
+        yield Case('api:derive', {'derivation': 'more:sample', 'labels': repr(labels), 'count': cnt, 'observed': obs[:300]},
+                   s=f'chk_S_sample {L} {cnt} {vl(probes)} {obs}', tags={'derivation': 'more:sample'})
+        if kind in ('int', 'str', 'float'):
+            o1 = draw_labels(ctx.rng, kind, ctx.rng.choice([0, 1, 3]), False)
+            o2 = draw_labels(ctx.rng, kind, ctx.rng.choice([1, 2]), False) + labels[:1]
+            O1, O2 = vl(o1), vl(o2)
+            pr = probes + o1[:2] + o2[:2]
+            if o1:
+                yield setop_case(ctx, 'more:union(a, b)', labels, [o1, o2], lambda: mk().union(sf.Index(o1), o2), f'(vset_union (vset_union {L} {O1}) {O2})', pr)
+                o1x = o1 + [x for x in labels[:1] if not any(x == y for y in o1)]
+                yield setop_case(ctx, 'more:intersection(a, b)', labels, [o1x, o2], lambda: mk().intersection(sf.Index(o1x), o2), f'(vset_inter (vset_inter {L} {vl(o1x)}) {O2})', pr)
+            yield setop_case(ctx, 'more:difference(equal)', labels, labels, lambda: mk().difference(sf.Index(labels)), '[]', pr)
+            yield setop_case(ctx, 'more:union(self)', labels, labels, lambda: (lambda s: s.union(s))(mk()), f'(map canon {L})', pr)
+    # conversions between index kinds
+    for _ in range(ctx.n(12, 200)):
+        days = sorted(ctx.rng.sample(range(0, 70), ctx.rng.choice([1, 2, 3])))
+        strs = [str(np.datetime64('2020-01-01') + d) for d in days]
+        unit = ctx.rng.choice(['D', 'M', 'Y'])
+        cast = [np.datetime64(s, unit) for s in strs]
+        pr_keys = cast[:3]
+        P = lit.lst([vlit(k) for k in pr_keys])
+        obs, ix = robs_lit(lambda: sf.Index(strs).astype(f'datetime64[{unit}]'), pr_keys)
+        yield Case('api:derive', {'derivation': 'more:astype(datetime64)', 'labels': repr(strs), 'unit': unit, 'observed': obs[:300]},
+                   m=f'chk_M_index {vl(cast)} {P} {obs}', s=f'chk_S_index {vl(cast)} {P} {obs}', tags={'derivation': 'more:astype(datetime64)'})
+        C = dt_classes()
+        klass = C[unit][ctx.rng.choice([0, 1])]
+        arr = np.array(strs, dtype='datetime64[D]')
+        obs, ix = robs_lit(lambda: klass(arr), pr_keys)
+        yield Case('api:derive', {'derivation': 'more:typed(array of another unit)', 'cls': klass.__name__, 'labels': repr(strs), 'observed': obs[:300]},
+                   m=f'chk_M_index {vl(cast)} {P} {obs}', s=f'chk_S_index {vl(cast)} {P} {obs}', tags={'derivation': 'more:typed-array'})
+        obs, ix = robs_lit(lambda: klass(sf.IndexDate(strs)), pr_keys)
+        yield Case('api:derive', {'derivation': 'more:typed(IndexDate)', 'cls': klass.__name__, 'labels': repr(strs), 'observed': obs[:300]},
+                   m=f'chk_M_index {vl(cast)} {P} {obs}', s=f'chk_S_index {vl(cast)} {P} {obs}', tags={'derivation': 'more:typed-index'})
+    for _ in range(ctx.n(8, 120)):
+        table = random_tree_labels(ctx.rng, 2, [['a', 'b', 'c'], [1, 2, 3]])[:5]
+        tup = [tuple(x) for x in table]
+        pr = tup[:3] + [('zz', 0)]
+        yield index_case(ctx, 'Index(IndexHierarchy)', lambda ls: sf.Index(sf.IndexHierarchy.from_labels(ls)), tup, pr, 'api:construct-more')
+        yield index_case(ctx, 'Index(Frame)', lambda ls: sf.Index(sf.Frame.from_records(ls)), tup, pr, 'api:construct-more')
+        flat = draw_labels(ctx.rng, ctx.rng.choice(['int', 'str']), ctx.rng.choice([0, 2, 3]), ctx.rng.random() < 0.3)
+        yield index_case(ctx, 'Index(Series)', lambda ls: sf.Index(sf.Series(ls)), flat, flat[:3] + ['zz'], 'api:construct-more')
+        yield index_case(ctx, 'IndexGO(Series)', lambda ls: sf.IndexGO(sf.Series(ls)), flat, flat[:3] + ['zz'], 'api:construct-more')
+
+
+def date_range_cases(ctx):
+    '''IndexDate / IndexYearMonth / IndexYear .from_date_range / from_year_month_range / from_year_range: the expected labels
+    are NumPy's arange over the unit (computed by the harness), observed completely.'''
+    import static_frame as sf
+    for _ in range(ctx.n(20, 300)):
+        y0 = ctx.rng.choice([1969, 1999, 2019, 2020])
+        m0, m1 = ctx.rng.randint(1, 12), ctx.rng.randint(1, 12)
+        d0, d1 = ctx.rng.randint(1, 28), ctx.rng.randint(1, 28)
+        y1 = y0 + ctx.rng.choice([0, 0, 1])
+        step = ctx.rng.choice([1, 1, 2, 7])
+        start_d, stop_d = f'{y0}-{m0:02d}-{d0:02d}', f'{y1}-{m1:02d}-{d1:02d}'
+        start_m, stop_m = start_d[:7], stop_d[:7]
+        go = ctx.rng.random() < 0.4
+        plans = [
+            ('IndexDate', 'from_date_range', (start_d, stop_d, step), np.arange(np.datetime64(start_d), np.datetime64(stop_d) + 1, step)),
+            ('IndexDate', 'from_year_month_range', (start_m, stop_m, step), np.arange(np.datetime64(start_m, 'D'), (np.datetime64(stop_m, 'M') + 1).astype('datetime64[D]'), step)),
+            ('IndexDate', 'from_year_range', (str(y0), str(y1), step * 30), np.arange(np.datetime64(str(y0), 'D'), (np.datetime64(str(y1), 'Y') + 1).astype('datetime64[D]'), step * 30)),
+            ('IndexYearMonth', 'from_date_range', (start_d, stop_d, step), np.arange(np.datetime64(start_m, 'M'), np.datetime64(stop_m, 'M') + 1, step)),
+            ('IndexYearMonth', 'from_year_month_range', (start_m, stop_m, step), np.arange(np.datetime64(start_m, 'M'), np.datetime64(stop_m, 'M') + 1, step)),
+            ('IndexYearMonth', 'from_year_range', (str(y0), str(y1), step), np.arange(np.datetime64(str(y0), 'M'), (np.datetime64(str(y1), 'Y') + 1).astype('datetime64[M]'), step)),
+            ('IndexYear', 'from_date_range', (start_d, stop_d, 1), np.arange(np.datetime64(str(y0), 'Y'), np.datetime64(str(y1), 'Y') + 1, 1)),
+            ('IndexYear', 'from_year_month_range', (start_m, stop_m, 1), np.arange(np.datetime64(str(y0), 'Y'), np.datetime64(str(y1), 'Y') + 1, 1)),
+            ('IndexYear', 'from_year_range', (str(y0), str(y1 + 3), step), np.arange(np.datetime64(str(y0), 'Y'), np.datetime64(str(y1 + 3), 'Y') + 1, step)),
+        ]
+        for cname, meth, args, expect in (plans if ctx.tier == 'thorough' else ctx.rng.sample(plans, 3)):
+            if len(expect) > 40:
+                continue
+            klass = getattr(sf, cname + ('GO' if go else ''))
+            labels = list(expect)
+            keys = labels[:3] + labels[-2:] + [expect[0] - 1 if len(expect) else np.datetime64('1900-01-01', np.datetime_data(expect.dtype)[0])]
+            P = lit.lst([vlit(k) for k in keys])
+            obs, ix = robs_lit(lambda: getattr(klass, meth)(*args), keys)
+            ctx.count(f'date-range:{cname}.{meth}')
+            yield Case('api:date-range', {'cls': klass.__name__, 'method': meth, 'args': repr(args), 'n_expected': len(labels), 'observed': obs[:300]},
+                       m=f'chk_M_index {vl(labels)} {P} {obs}', s=f'chk_S_index {vl(labels)} {P} {obs}', tags={'route': f'{cname}.{meth}'},
+                       nontrivial=len(labels) >= 2)
+
+
 def setop_case(ctx, name, labels, other, build, expect, probes):
     obs, ix = robs_lit(build, probes)
     ctx.count(f'derive:{name}')
@@ -993,7 +1138,7 @@ def derive_cases(ctx):
     import copy
     import pickle
     import static_frame as sf
-    for _ in range(ctx.n(40, 900)):
+    for _ in range(ctx.n(30, 900)):
         kind = ctx.rng.choice(['int', 'str', 'mixed', 'tuple', 'float', 'int', 'str'])
         n = ctx.rng.choice([1, 2, 3, 4, 6, 9])
         labels = draw_labels(ctx.rng, kind, n, False)
@@ -1270,7 +1415,7 @@ def hier_derive_cases(ctx):
     whether that table must be rejected (not a tree in that order / duplicates) or be an exact bijection.'''
     import static_frame as sf
     pools_by = [['a', 'b', 'c'], [1, 2, 3], ['x', 'y']]
-    for _ in range(ctx.n(40, 900)):
+    for _ in range(ctx.n(30, 900)):
         depth = ctx.rng.choice([2, 2, 3])
         table = random_tree_labels(ctx.rng, depth, pools_by[:depth])[:9]
         n = len(table)
@@ -1325,6 +1470,361 @@ IH_DERIVE = {
     'go.copy()': lambda ih: ih.copy(),
     'go.iloc[:]': lambda ih: ih.iloc[:],
 }
+
+
+def more_hier_cases(ctx):
+    '''Routes of index_hierarchy.py that construct or derive a hierarchical index and were not reached by the other strata
+    (coverage-guided).  Expected tables are computed from the source table by the harness; S decides accept / reject and
+    checks the complete observation.'''
+    import copy
+    import pickle
+    import static_frame as sf
+    IH = sf.IndexHierarchy
+    pools_by = [['a', 'b', 'c'], [1, 2, 3], ['x', 'y']]
+    for _ in range(ctx.n(16, 400)):
+        depth = ctx.rng.choice([2, 3, 3])
+        pools = pools_by[:depth]
+        table = random_tree_labels(ctx.rng, depth, pools)[:8]
+        n = len(table)
+        cls = ctx.rng.choice([sf.IndexHierarchy, sf.IndexHierarchyGO])
+        mk = lambda: cls.from_labels(table)
+        rows = [tuple(ctx.rng.choice(p) for p in pools) for _ in range(2)]
+
+        def emit(name, fn, expect, how='exact', extra=None, tags=None, probes=None, model=None):
+            pr = probes if probes is not None else hier_probes(ctx.rng, expect if expect else table, rows)
+            try:
+                obs, ih = rhobs_lit(lambda: fn(mk()), pr)
+            except ReaderRaised as e:
+                return Case('api:hier-more', {'derivation': 'more:' + name, 'source': repr(table), 'expected_table': repr(expect), 'error': str(e)},
+                            py_fail=f'a reader of the derived index raised: {e}', tags=dict({'derivation': 'more:' + name}, **(tags or {})))
+            ctx.count(f'hier-more:{name}', 'hier-more:accepted' if ih is not None else 'hier-more:rejected')
+            desc = {'derivation': 'more:' + name, 'source': repr(table), 'expected_table': repr(expect), 'observed': obs[:300]}
+            desc.update(extra or {})
+            chk = {'exact': f'chk_S_hier {ll(expect)} {ll(pr)} {obs}', 'set': f'chk_S_hier_set {ll(expect)} {ll(pr)} {obs}'}[how]
+            return Case('api:hier-more', desc, m=(model(ll(pr), obs) if model else None), s=chk, tags=dict({'derivation': 'more:' + name}, **(tags or {})))
+        # construction routes
+        shuffled = list(table)
+        ctx.rng.shuffle(shuffled)
+        yield emit('from_labels(reorder_for_hierarchy)', lambda s: cls.from_labels(shuffled, reorder_for_hierarchy=True), table, 'set', {'given': repr(shuffled)})
+        tok = '-'
+        cont = [tuple(tok if (i and x[d] == table[i - 1][d] and all(x[e] == table[i - 1][e] for e in range(d))) else x[d] for d in range(depth)) for i, x in enumerate(table)]
+        yield emit('from_labels(continuation_token)', lambda s: cls.from_labels(cont, continuation_token=tok), table, extra={'given': repr(cont)})
+        yield emit('from_labels_delimited', lambda s: cls.from_labels_delimited([' '.join(repr(c) for c in x) for x in table]), table)
+        yield emit('deepcopy', lambda s: copy.deepcopy(s), table)
+        yield emit('pickle', lambda s: pickle.loads(pickle.dumps(s)), table)
+        # selection
+        k = slice(ctx.rng.choice([None, 0, 1]), ctx.rng.choice([None, n, n - 1]), ctx.rng.choice([None, 1, 2, -1]))
+        if len(table[k]):
+            yield emit('ih[slice]', lambda s: s[k], list(table[k]), extra={'key': repr(k)})
+        ps = sorted({ctx.rng.randrange(n) for _ in range(ctx.rng.choice([1, 2, 3]))}, reverse=ctx.rng.random() < 0.3)
+        yield emit('ih[list]', lambda s: s[ps], [table[p] for p in ps], extra={'key': repr(ps)})
+        yield emit('loc[list of labels]', lambda s: s.loc[[table[p] for p in ps]], [table[p] for p in ps], extra={'key': repr(ps)})
+        outer = ctx.rng.choice(table)[0]
+        yield emit('loc[HLoc[outer]]', lambda s: s.loc[sf.HLoc[outer]], [x for x in table if x[0] == outer], extra={'key': repr(outer)})
+        inner = ctx.rng.choice(table)[-1]
+        sel = [x for x in table if x[-1] == inner]
+        yield emit('loc[HLoc[..., inner]]', lambda s: s.loc[sf.HLoc[tuple([slice(None)] * (depth - 1) + [inner])]], sel, extra={'key': repr(inner)})
+        i0, i1 = sorted([ctx.rng.randrange(n), ctx.rng.randrange(n)])
+        yield emit('loc[label:label]', lambda s: s.loc[table[i0]:table[i1]], table[i0:i1 + 1], extra={'key': repr((table[i0], table[i1]))})
+        f = sf.Frame.from_element(0, index=(0,), columns=mk())
+        if n > 1:
+            yield emit('Frame.drop.loc[:, label].columns', lambda s: f.drop.loc[:, table[i0]].columns, [x for i, x in enumerate(table) if i != i0])
+        if len(set(ps)) < n:
+            yield emit('Frame.drop.iloc[:, list].columns', lambda s: f.drop.iloc[:, ps].columns, [x for i, x in enumerate(table) if i not in ps])
+        yield emit('Frame.loc[:, HLoc].columns', lambda s: f.loc[:, sf.HLoc[outer]].columns, [x for x in table if x[0] == outer])
+        # reshaping
+        yield emit('sort', lambda s: s.sort(), sorted(table))
+        yield emit('sort(descending)', lambda s: s.sort(ascending=False), sorted(table, reverse=True))
+        order = list(range(depth))
+        ctx.rng.shuffle(order)
+        yield emit('rehierarch', lambda s: s.rehierarch(order), [tuple(x[d] for d in order) for x in table], 'set', {'depth_map': repr(order)})
+        src, dst = table[i0], table[i0][:-1] + ('Z',)
+        yield emit('relabel(dict)', lambda s: s.relabel({src: dst}), [dst if x == src else x for x in table])
+        yield emit('astype[inner](float)', lambda s: s.astype[depth - 2](float) if depth == 3 else s.astype[1](float), table)
+        yield emit('astype(str)', lambda s: s.astype(str), [tuple(str(c) for c in x) for x in table])
+        if depth == 3:
+            for c in (1, -1):
+                exp = [x[c:] for x in table] if c > 0 else [x[:c] for x in table]
+                dup = len(set(exp)) != len(exp)
+                tg = None
+                if c < 0 and dup:
+                    tg = {'finding': 'C02-level-drop-inner-duplicates'}
+                elif c > 0 and len({x[0] for x in table}) >= 2 and py_valid_table(exp):
+                    tg = {'finding': 'C02-level-drop-outer-offsets'}
+                yield emit(f'level_drop({c})', lambda s, c=c: s.level_drop(c), exp, tags=tg,
+                           model=(lambda P, obs: f'chk_M_level_drop1 {ll(table)} {P} {obs}') if c == 1 else None)
+            flat_exp = [x[2] for x in table]
+            probes = flat_exp[:3] + ['zz']
+            obs, ix = robs_lit(lambda: mk().level_drop(2), probes)
+            yield Case('api:hier-more', {'derivation': 'more:level_drop(2)', 'source': repr(table), 'observed': obs[:300]},
+                       m=f'chk_M_index {vl(flat_exp)} {vl(probes)} {obs}', s=f'chk_S_index {vl(flat_exp)} {vl(probes)} {obs}', tags={'derivation': 'more:level_drop'})
+        # set operations with another hierarchy
+        other = random_tree_labels(ctx.rng, depth, pools)[:4]
+        O = cls.from_labels(other)
+        both = table + [x for x in other if x not in table]
+        yield emit('union', lambda s: s.union(O), both, 'set', {'other': repr(other)})
+        inter = [x for x in table if x in other]
+        if inter:
+            yield emit('intersection', lambda s: s.intersection(O), inter, 'set', {'other': repr(other)})
+        diff = [x for x in table if x not in other]
+        if diff:
+            yield emit('difference', lambda s: s.difference(O), diff, 'set', {'other': repr(other)})
+        yield emit('union(self)', lambda s: s.union(s), table, 'set')
+        cnt = ctx.rng.choice([1, n])
+        pr = hier_probes(ctx.rng, table, rows)
+        obs, ih = rhobs_lit(lambda: mk().sample(cnt, seed=ctx.rng.randrange(50)), pr)
+        yield Case('api:hier-more', {'derivation': 'more:sample', 'source': repr(table), 'count': cnt, 'observed': obs[:300]},
+                   s=f'match {obs} with Ok o => chk_S_hier (h_values o) {ll(pr)} {obs} && lsubsetb (map lab_canon (h_values o)) (map lab_canon {ll(table)}) && (zlen (h_values o) =? {cnt}) | Err _ => false end',
+                   tags={'derivation': 'more:sample'})
+        yield emit('fillna', lambda s: s.fillna(0), table)
+        # IndexHierarchyGO.extend with another hierarchy: all or nothing
+        ext = [(ctx.rng.choice(['d', 'e', table[-1][0], table[0][0]]),) + x[1:] for x in random_tree_labels(ctx.rng, depth, pools)[:3]]
+        ext = [x for i, x in enumerate(ext) if x not in ext[:i]]
+        try:
+            E = IH.from_labels(ext)
+        except Exception:  # noqa
+            E = None
+        if E is not None:
+            g = sf.IndexHierarchyGO.from_labels(table)
+            if ctx.rng.random() < 0.5:
+                g.values
+            try:
+                g.extend(E)
+                accepted = True
+            except Exception:  # noqa
+                accepted = False
+            expect = table + ext if accepted else table
+            pr = hier_probes(ctx.rng, table + ext, rows)
+            obs = f'(Ok {reading(hobs_lit, g, pr)})'
+            ctx.count('hier-more:IHGO.extend', 'hier-more:extend-accepted' if accepted else 'hier-more:extend-rejected')
+            yield Case('api:hier-more', {'derivation': 'more:IHGO.extend', 'source': repr(table), 'extended_with': repr(ext), 'accepted': accepted, 'observed': obs[:300]},
+                       s=f'chk_S_hier {ll(expect)} {ll(pr)} {obs}', tags={'derivation': 'more:IHGO.extend'})
+        # compound keys of loc_to_iloc: the answers must agree with the element lookups (two implementation answers compared)
+        s0 = mk()
+        keys = [table[p] for p in ps]
+        try:
+            elem = [s0.loc_to_iloc(k) for k in keys]
+            a1 = list(s0.loc_to_iloc(list(keys)))
+            a2 = list(s0.loc_to_iloc(IH.from_labels(keys))) if len(keys) and _tree_ok(keys) else elem
+            mask = np.array([i in ps for i in range(n)])
+            a3 = sorted(int(x) for x in s0.loc_to_iloc(mask))
+            a4 = s0.loc_to_iloc(slice(table[i0], table[i1]))
+            bad = None
+            if a1 != elem or a2 != elem:
+                bad = f'loc_to_iloc(list / IndexHierarchy key) {a1} / {a2} differs from the element lookups {elem}'
+            elif a3 != sorted(ps):
+                bad = f'loc_to_iloc(mask) gives {a3}, mask selects {sorted(ps)}'
+            elif (a4.start, a4.stop) != (i0, i1 + 1):
+                bad = f'loc_to_iloc(label slice) gives {a4}, expected slice({i0}, {i1 + 1})'
+        except Exception as e:  # noqa
+            bad = f'compound loc_to_iloc raised {type(e).__name__}: {str(e)[:80]}'
+        yield Case('api:hier-more', {'derivation': 'more:loc_to_iloc(compound keys)', 'source': repr(table), 'keys': repr(keys), 'slice': repr((table[i0], table[i1]))},
+                   py_fail=bad, tags={'derivation': 'more:loc_to_iloc-compound'})
+    # deterministic witnesses of the two level_drop findings (every run)
+    for table, c, fid in (([('c', 3, 'y'), ('a', 2, 'x'), ('a', 2, 'y')], 1, 'C02-level-drop-outer-offsets'),
+                          ([('a', 1, 'x'), ('b', 2, 'x'), ('b', 2, 'y'), ('b', 3, 'x')], 1, 'C02-level-drop-outer-offsets'),
+                          ([('a', 1, 'x'), ('a', 1, 'y'), ('b', 1, 'y')], -1, 'C02-level-drop-inner-duplicates')):
+        exp = [x[c:] for x in table] if c > 0 else [x[:c] for x in table]
+        pr = [list(x) for x in exp]
+        try:
+            obs, ih = rhobs_lit(lambda: sf.IndexHierarchy.from_labels(table).level_drop(c), pr)
+            yield Case('api:hier-more', {'derivation': f'more:level_drop({c})', 'source': repr(table), 'expected_table': repr(exp), 'observed': obs[:300]},
+                       m=f'chk_M_level_drop1 {ll(table)} {ll(pr)} {obs}' if c == 1 else None,
+                       s=f'chk_S_hier {ll(exp)} {ll(pr)} {obs}', tags={'derivation': 'more:level_drop', 'finding': fid})
+        except ReaderRaised as e:
+            yield Case('api:hier-more', {'derivation': f'more:level_drop({c})', 'source': repr(table), 'error': str(e)},
+                       py_fail=f'a reader of the derived index raised: {e}', tags={'derivation': 'more:level_drop', 'finding': fid})
+    # zero-length and typed-level constructions
+    for names in (('x', 'y'), ('x', 'y', 'z')):
+        for klass in (sf.IndexHierarchy, sf.IndexHierarchyGO):
+            pr = [['a', 1], ['a']]
+            obs, ih = rhobs_lit(lambda: klass.from_names(names), pr)
+            yield Case('api:hier-more', {'derivation': 'more:from_names', 'names': repr(names), 'observed': obs[:300]}, s=f'chk_S_hier_empty {ll(pr)} {obs}', tags={'derivation': 'more:from_names'})
+            obs, ih = rhobs_lit(lambda: klass.from_labels(np.empty((0, len(names)), dtype=object)), pr)
+            yield Case('api:hier-more', {'derivation': 'more:from_labels(empty 2-D array)', 'depth': len(names), 'observed': obs[:300]}, s=f'chk_S_hier_empty {ll(pr)} {obs}', tags={'derivation': 'more:from_labels-empty'})
+    for _ in range(ctx.n(6, 80)):
+        days = ctx.rng.sample(range(0, 40), ctx.rng.choice([1, 2, 3]))
+        if ctx.rng.random() < 0.3:
+            days.append(days[0])
+        outs_ = sorted(ctx.rng.sample(['a', 'b', 'c'], ctx.rng.choice([1, 2])))
+        given = [(o, str(np.datetime64('2020-01-01') + d)) for o in outs_ for d in days]
+        table = [(o, np.datetime64(s)) for o, s in given]
+        pr = [list(x) for x in table[:4]] + [['zz', np.datetime64('2020-01-01')]]
+        obs, ih = rhobs_lit(lambda: sf.IndexHierarchy.from_labels(given, index_constructors=(sf.Index, sf.IndexDate)), pr)
+        yield Case('api:hier-more', {'derivation': 'more:from_labels(index_constructors=IndexDate)', 'labels': repr(given), 'observed': obs[:300]},
+                   m=f'chk_M_hier {ll(table)} {ll(pr)} {obs}', s=f'chk_S_hier {ll(table)} {ll(pr)} {obs}', tags={'derivation': 'more:typed-level'})
+
+
+def py_valid_table(rows):
+    '''Input-side reading of "distinct and a tree in the given order" (used ONLY to put a case into the class of a known
+    finding; verdicts are computed in Coq by S_from_labels).'''
+    rows = [tuple(r) for r in rows]
+    if len(set(rows)) != len(rows) or not rows:
+        return False
+    d = len(rows[0])
+    for p in range(1, d):
+        seen, prev = set(), None
+        for r in rows:
+            k = r[:p]
+            if k != prev and k in seen:
+                return False
+            seen.add(k)
+            prev = k
+    return True
+
+
+def _tree_ok(keys):
+    try:
+        import static_frame as sf
+        sf.IndexHierarchy.from_labels(keys)
+        return True
+    except Exception:  # noqa
+        return False
+
+
+def views_cases(ctx):
+    '''Further views of the label sequence that the main observation does not read (iter_label, values_at_depth,
+    label_widths_at_depth, unique, shape / ndim / size, compound keys on a map-less index): they must describe the same
+    labels in the same order (the answers of the implementation are compared with its own values / iteration).'''
+    import static_frame as sf
+
+    def flat_views(ix):
+        vals = iter_items(iter(ix))
+        n = len(vals)
+        if iter_items(ix.iter_label()) != vals:
+            return 'iter_label() differs from iteration'
+        if (ix.shape, ix.ndim, ix.size) != ((n,), 1, n):
+            return f'shape / ndim / size {(ix.shape, ix.ndim, ix.size)} for {n} labels'
+        if arr_items(ix.values_at_depth(0)) != arr_items(ix.values) or arr_items(ix.unique()) != arr_items(ix.values):
+            return 'values_at_depth(0) / unique() differ from values'
+        if [(k.item() if isinstance(k, np.generic) and not isinstance(k, np.datetime64) else k, w) for k, w in ix.label_widths_at_depth(0)] != [(v, 1) for v in vals]:
+            return 'label_widths_at_depth(0) is not one unit per label'
+        if [int(p) for p, _ in ix.iter_label().apply_iter_items(lambda x: x)] != list(range(n)) if hasattr(ix.iter_label(), 'apply_iter_items') else False:
+            return 'iter_label items are not numbered 0..n-1'
+        return None
+
+    def hier_views(ih):
+        rows = [tuple(iter_items(x)) for x in ih]
+        n, depth = len(rows), ih.depth
+        if [tuple(iter_items(x)) for x in ih.iter_label()] != rows:
+            return 'iter_label() differs from iteration'
+        if (ih.shape, ih.ndim, ih.size) != ((n, depth), 2, n * depth):
+            return f'shape / ndim / size {(ih.shape, ih.ndim, ih.size)} for {n} labels of depth {depth}'
+        for d in range(depth):
+            col = [r[d] for r in rows]
+            if iter_items(ih.values_at_depth(d)) != col or iter_items(ih.iter_label(d)) != col:
+                return f'values_at_depth({d}) / iter_label({d}) differ from the labels'
+            widths = [(k.item() if isinstance(k, np.generic) else k, w) for k, w in ih.label_widths_at_depth(d)]
+            flat = [k for k, w in widths for _ in range(w)]
+            if flat != col:
+                return f'label_widths_at_depth({d}) expands to {flat}, labels are {col}'
+        return None
+    pools_by = [['a', 'b', 'c'], [1, 2, 3], ['x', 'y']]
+    for it in range(ctx.n(40, 500)):
+        which = ctx.rng.choice(['flat', 'flat-go', 'auto', 'auto-go', 'date', 'hier', 'hier-go', 'hier-go-cold'])
+        desc = {'kind': which}
+        try:
+            if which in ('flat', 'flat-go'):
+                labels = draw_labels(ctx.rng, ctx.rng.choice(['int', 'str', 'mixed', 'float']), ctx.rng.choice([0, 1, 3, 5]), False)
+                ix = (sf.Index if which == 'flat' else sf.IndexGO)(labels)
+                if which == 'flat-go':
+                    ix.append('more')
+                desc['labels'] = repr(labels)
+                bad = flat_views(ix)
+            elif which in ('auto', 'auto-go'):
+                n = ctx.rng.choice([0, 1, 4])
+                ix = sf.Series(tuple(range(n))).index if which == 'auto' else sf.FrameGO(np.zeros((1, n))).columns
+                if which == 'auto-go':
+                    ix.append(n)
+                    n += 1
+                desc['n'] = n
+                bad = flat_views(ix)
+                if bad is None and n >= 2:
+                    a, b = sorted(ctx.rng.sample(range(n), 2))
+                    mask = np.array([ctx.rng.random() < 0.5 for _ in range(n)])
+                    got = (ix.loc_to_iloc(slice(a, b)), ix.loc_to_iloc(slice(None)), sorted(int(x) for x in ix.loc_to_iloc(mask)), list(ix.loc_to_iloc([a, b])))
+                    want = (slice(a, b + 1), slice(0, n), [i for i in range(n) if mask[i]], [a, b])
+                    if got != want:
+                        bad = f'compound keys on a map-less index: {got}, expected {want}'
+                    for key in (slice(a, n), [a, n]):
+                        try:
+                            r = ix.loc_to_iloc(key)
+                            bad = bad or f'loc_to_iloc({key}) with a label that is not held returned {r}'
+                        except (KeyError, sf.LocInvalid if hasattr(sf, 'LocInvalid') else KeyError):
+                            pass
+            elif which == 'date':
+                ix = sf.IndexDate.from_date_range('2020-01-01', f'2020-01-{ctx.rng.randint(1, 20):02d}')
+                bad = flat_views(ix)
+            else:
+                depth = ctx.rng.choice([2, 3])
+                table = random_tree_labels(ctx.rng, depth, pools_by[:depth])[:7]
+                desc['table'] = repr(table)
+                if which == 'hier':
+                    ih = sf.IndexHierarchy.from_labels(table)
+                else:
+                    ih = sf.IndexHierarchyGO.from_labels(table)
+                    if which == 'hier-go-cold':
+                        ih.values
+                    ih.append(('zz',) + tuple(table[-1][1:]))
+                bad = hier_views(ih)
+        except Exception as e:  # noqa
+            bad = f'a view raised {type(e).__name__}: {str(e)[:100]}'
+        ctx.count(f'views:{which}')
+        yield Case('api:views', dict(desc, i=it), py_fail=bad, tags={'kind': which})
+
+
+def hier_malformed_cases(ctx):
+    '''Malformed hierarchical constructions must be refused (no index is produced); and a zero-length grow-only hierarchy
+    (from_names) grown label by label is the table of the accepted labels.'''
+    import static_frame as sf
+    from static_frame.core.index_level import IndexLevel
+    IH = sf.IndexHierarchy
+    ih = IH.from_labels([('a', 1), ('a', 2)])
+    ih.values                                   # realise the cached blocks
+    plans = [
+        ('from_labels(reorder + continuation_token)', lambda: IH.from_labels([('a', 1)], reorder_for_hierarchy=True, continuation_token='')),
+        ('from_labels(index_constructors of wrong length)', lambda: IH.from_labels([('a', 1)], index_constructors=(sf.Index,))),
+        ('from_labels(empty array, wrong depth_reference)', lambda: IH.from_labels(np.empty((0, 3), dtype=object), depth_reference=2)),
+        ('IndexHierarchy(Index)', lambda: IH(sf.Index(('a',)))),
+        ('IndexHierarchy(IndexLevel of depth 1)', lambda: IH(IndexLevel(sf.Index(('a', 'b'))))),
+        ('IndexHierarchy(ih, blocks=...)', lambda: IH(ih, blocks=ih._blocks)),
+        ('from_labels_delimited(one component)', lambda: IH.from_labels_delimited(["'a'"])),
+        ('from_product(one level)', lambda: IH.from_product(('a', 'b'))),
+        ('level_drop(0)', lambda: ih.level_drop(0)),
+        ('from_labels(non-unique, index_constructors)', lambda: IH.from_labels([('a', 1), ('a', 1)], index_constructors=(sf.Index, sf.Index))),
+    ]
+    for name, fn in plans:
+        try:
+            r = fn()
+            bad = f'{name} produced {type(r).__name__} of {len(r)} labels; it must be refused'
+        except Exception:  # noqa
+            bad = None
+        yield Case('api:hier-malformed', {'call': name}, py_fail=bad, tags={'call': name})
+    for labels in ([("('a' 1)"), ("['a' 2]")], ["('a' 1 'x')", "('a' 2 'x')"]):
+        table = [tuple(eval(c) for c in s.strip("()[]").split(' ')) for s in labels]
+        pr = [list(x) for x in table]
+        obs, x = rhobs_lit(lambda: IH.from_labels_delimited(labels), pr)
+        yield Case('api:hier-more', {'derivation': 'more:from_labels_delimited(brackets)', 'labels': repr(labels), 'observed': obs[:300]},
+                   s=f'chk_S_hier {ll(table)} {ll(pr)} {obs}', tags={'derivation': 'more:from_labels_delimited'})
+    for _ in range(ctx.n(8, 100)):
+        depth = ctx.rng.choice([2, 3])
+        pools = [['a', 'b'], [1, 2], ['x', 'y']][:depth]
+        g = sf.IndexHierarchyGO.from_names(tuple('xyz'[:depth]))
+        first = tuple(ctx.rng.choice(p) for p in pools)
+        ops, outs = [], []
+        for new in [first] + [tuple(ctx.rng.choice(p) for p in pools) for _ in range(ctx.rng.choice([1, 2, 4]))]:
+            try:
+                g.append(new)
+                outs.append(True)
+            except Exception:  # noqa
+                outs.append(False)
+            ops.append(new)
+        pr = [list(x) for x in dict.fromkeys(ops)] + [[pools[0][0]]]
+        obs = reading(hobs_lit, g, pr)
+        # the first label of an empty table is always acceptable; afterwards S_hgo_run decides
+        yield Case('api:ihgo-append', {'initial': '[] (from_names)', 'appended': repr(ops), 'outcomes': outs, 'observed': obs[:300]},
+                   s=f'chk_S_hier_go {ll([first])} {ll(ops[1:])} {lit.lst([lit.b(x) for x in outs[1:]])} {ll(pr)} {obs}',
+                   py_fail=None if outs[0] else 'the first label appended to a zero-length IndexHierarchyGO was refused', tags={'route': 'IHGO.from_names.append'})
 
 
 def ihgo_append_cases(ctx):
@@ -1426,7 +1926,7 @@ def automap_oracle_cases(ctx):
 
 
 STRATA = [construct_small_cases, construct_random_cases, dtype_cases, auto_cases, go_small_cases, go_promotion_cases, go_random_cases, static_from_go_cases, bigint_cases,
-          multi_key_cases, derive_cases, auto_derive_cases, datetime_cases, hier_small_cases, hier_random_cases, hier_derive_cases, ihgo_append_cases,
+          multi_key_cases, derive_cases, auto_derive_cases, more_flat_cases, date_range_cases, datetime_cases, hier_small_cases, hier_random_cases, hier_derive_cases, more_hier_cases, views_cases, hier_malformed_cases, ihgo_append_cases,
           automap_oracle_cases]
 
 
